@@ -257,7 +257,9 @@ func (ct *ChunkTags) encodeTags(pts influx.PointTags, keys []string) {
 }
 
 func (ct *ChunkTags) encodeTagsWithoutDims(pts influx.PointTags, withoutKeys []string) {
-	ct.offsets = make([]uint16, 0, (len(pts)-len(withoutKeys))*2)
+	// the without list may name more labels than the series carries (labels of other series,
+	// labels that do not exist): the capacity is a hint, never negative
+	ct.offsets = make([]uint16, 0, max(len(pts)-len(withoutKeys), 0)*2)
 	if len(pts) == 0 {
 		return
 	}
